@@ -161,6 +161,13 @@ def labels_only(ctx, rule='C16-R1'):
             if e.kind in ('assign', 'propget', 'cond'):
                 continue
             before = len(sc.found)
+            if e.kind in ('store', 'aug', 'mutcall', 'del') and e.base is not None and tag(T.root(e.base)) == 'g':
+                # something that outlives the chunk (a module- or class-level object) is filled per ceilometer name:
+                # what one data set stored under 'A' is found by the next one under the same spelling
+                terms = [x for nm, v in fx.terms_of(e) if nm not in ('guard', 'base') for x in T.walk(v)]
+                if any(sc.namey(x, frozenset()) for x in terms if tag(x) in ('lv', 'cv', 'col', 'call', 'mcall')):
+                    sc.bad(f'{T.show(T.root(e.base))} is kept between chunks and keyed by / filled with ceilometer names',
+                           e.target if e.target is not None else e.base)
             is_log = e.kind == 'call' and ('.logger.' in (call_head(e) or '') or call_head(e) == 'warnings.warn')
             for nm, v in fx.terms_of(e):
                 if nm in ('guard', 'base'):
